@@ -3,8 +3,8 @@ package world
 import (
 	codectypes "github.com/cosmos/cosmos-sdk/codec/types"
 	sdk "github.com/cosmos/cosmos-sdk/types"
-	ethcrypto "github.com/ethereum/go-ethereum/crypto"
 	"github.com/cosmos/gogoproto/proto"
+	ethcrypto "github.com/ethereum/go-ethereum/crypto"
 	ctypes "github.com/palomachain/paloma/v2/x/consensus/types"
 )
 
